@@ -170,7 +170,8 @@ def bind_params(E, qual, args, node):
             dv = E.eval_in_module(dnode)
             if name in bound:
                 _, pres, v = bound[name]
-                bound[name] = v if pres is True else E.ite(pres, v, dv)
+                known = E.decide(pres) if not E.spec_mode else (pres if isinstance(pres, bool) else None)
+                bound[name] = v if known is True else (dv if known is False else E.ite(pres, v, dv))
             else:
                 bound[name] = dv
     finally:
@@ -195,7 +196,7 @@ def type_matches(T, v):
         if T == 'none':
             return v is None
         if T == 'opaque':
-            return isinstance(v, Opaque)
+            return isinstance(v, (Opaque, SDict))
         if T == STR:
             return isinstance(v, str) or (isinstance(v, Z) and v.ty == STR)
         if T == BOOL:
@@ -299,7 +300,7 @@ def call_contract(E, qual, args, node):
         v = bound.get(m)
         for ident in lib_idents(v):
             E.mutate(ident, node, 'callee %s modifies %s' % (short, m))
-    maker = c.get('result')
+    maker = case.get('result') or c.get('result')
     pre_heap = dict(E.st.heap)
     from .engine import _sdict_snapshot, _frame_snapshot
     saved_entry = (E.st.entry_heap, E.entry_env, E.entry_sdicts, E.entry_frames)
@@ -314,6 +315,8 @@ def call_contract(E, qual, args, node):
             result = maker(E, env)
         env['result'] = result
         for e in c.get('ensures', []) + c.get('call_ensures', []):
+            if isinstance(e, str) and try_definitional(E, e, env):
+                continue
             E.assume(E.spec_bool(e, env))
     finally:
         E.st.entry_heap, E.entry_env, E.entry_sdicts, E.entry_frames = saved_entry
@@ -1091,3 +1094,201 @@ def nd_dual_threshold(E, args, node):
     r.sx, r.sx_heap = sx, E.st.heap[r.ident]
     E.st.calls.append(('neurodsp.burst.detect_bursts_dual_threshold', {'sx': sx}, r))
     return r
+
+
+@libfn('numpy.append')
+def np_append(E, args, node):
+    a, b = args.pos[0], args.pos[1]
+    if isinstance(b, Arr) and not isinstance(a, Arr):
+        e0 = _norm_elem(a)
+        src = E.st.heap[b.ident]
+        n = b.n if not isinstance(b.n, int) else z3.IntVal(b.n)
+        return E.new_arr(z3.simplify(n + 1), b.ty,
+                         lambda i: E.ite(i == 0, e0, src(b.off + (i - 1) * b.stride)))
+    if isinstance(a, Arr) and not isinstance(b, Arr):
+        e1 = _norm_elem(b)
+        src = E.st.heap[a.ident]
+        n = a.n if not isinstance(a.n, int) else z3.IntVal(a.n)
+        ty = a.ty
+        if isinstance(e1, X) and ty != XR:
+            ty = XR
+            return E.new_arr(z3.simplify(n + 1), ty,
+                             lambda i: E.ite(i == n, e1, xops.to_x(src(a.off + i * a.stride))))
+        return E.new_arr(z3.simplify(n + 1), ty, lambda i: E.ite(i == n, e1, src(a.off + i * a.stride)))
+    raise Unsupported('np.append variant')
+
+
+@libfn('pandas.DataFrame.from_dict')
+def pd_from_dict(E, args, node):
+    d = args.pos[0]
+    if not isinstance(d, SDict) or not all(p is True for p, _ in d.items.values()):
+        raise Unsupported('from_dict of %r' % (d,))
+    cols = {}
+    n = None
+    for k, (_, v) in d.items.items():
+        if not isinstance(v, Arr):
+            raise Unsupported('from_dict value %r' % (v,))
+        if n is None:
+            n = v.n if not isinstance(v.n, int) else z3.IntVal(v.n)
+        else:
+            # "All arrays must be of the same length" (ValueError otherwise)
+            E.oblige('lib-pre', _eq_len(n, v.n), node, 'from_dict: all columns have the same length')
+        cols[k] = E.snapshot(v, kind='series')
+    return Frame(E.new_ident(), n, cols)
+
+
+@libfn('neurodsp.timefrequency.amp_by_time', 'neurodsp.timefrequency.hilbert.amp_by_time')
+def nd_amp_by_time(E, args, node):
+    """assumed contract: an array of len(sig), a function of (sig, fs, band, n_cycles, remaining options)"""
+    from .values import SeqSort
+    sig = args.get(0, 'sig')
+    fs = lift(args.get(1, 'fs'))
+    f_range = args.get(2, 'f_range')
+    ncyc = lift(args.kw.get('n_cycles', 3))
+    f0, f1 = lift(f_range[0]), lift(f_range[1])
+    f = E.seq_fn('amp_by_time', SeqSort, z3.RealSort(), z3.RealSort(), z3.RealSort(), z3.RealSort(), SeqSort)
+    # assumed: the analytic amplitude is even in the sign of the signal, amp(-x) == amp(x)
+    base = getattr(sig, 'neg_of', None) if getattr(sig, 'sx_heap', None) is E.st.heap.get(sig.ident) else None
+    sx = f(base if base is not None else E.seq(sig), to_real(fs), to_real(f0), to_real(f1), to_real(ncyc))
+    at = E.seq_fn('seq_at_xr', SeqSort, z3.IntSort(), XRS)
+    r = E.new_arr(sig.n, XR, lambda i: X(at(sx, i)))
+    r.sx, r.sx_heap = sx, E.st.heap[r.ident]
+    return r
+
+
+@method('Frame.rename')
+def frame_rename(E, f, args, node):
+    mapping = args.kw.get('columns')
+    inplace = args.kw.get('inplace', False)
+    if not isinstance(mapping, SDict) or inplace is not True:
+        raise Unsupported('rename variant')
+    m = {k: v for k, (p, v) in mapping.items.items() if p is True}
+    E.mutate(f.ident, node, 'rename(inplace=True)')
+    new = {}
+    for c, a in f.cols.items():
+        nc = m.get(c, c)
+        if nc in new:
+            raise Unsupported('rename creates duplicate column %s' % nc)
+        new[nc] = a
+    f.cols = new
+    return None
+
+
+@method('Frame.drop')
+def frame_drop(E, f, args, node):
+    labels = args.pos[0] if args.pos else args.kw.get('columns')
+    axis = args.kw.get('axis', 0 if 'columns' not in args.kw else 1)
+    if axis != 1:
+        raise Unsupported('drop rows')
+    names = labels.items if isinstance(labels, PyList) else list(labels)
+    for nme in names:
+        if nme not in f.cols:
+            raise RaiseSig('KeyError', node, str(nme))
+    cols = {c: E.snapshot(a, kind='series') for c, a in f.cols.items() if c not in names}
+    return Frame(E.new_ident(), f.n, cols)
+
+
+@method('str.startswith')
+def str_startswith(E, s, args, node):
+    if isinstance(s, str) and isinstance(args.pos[0], str):
+        return s.startswith(args.pos[0])
+    raise Unsupported('symbolic startswith')
+
+
+@method('str.endswith')
+def str_endswith(E, s, args, node):
+    if isinstance(s, str) and isinstance(args.pos[0], str):
+        return s.endswith(args.pos[0])
+    raise Unsupported('symbolic endswith')
+
+
+@method('str.replace')
+def str_replace(E, s, args, node):
+    if isinstance(s, str):
+        return s.replace(args.pos[0], args.pos[1])
+    raise Unsupported('symbolic replace')
+
+
+def try_definitional(E, e, env):
+    """A callee postcondition of the shape  forall(i, 0 <= i < len(R), same(R..[i], EXPR(i)))  over a fresh result
+    array R defines R pointwise; instead of assuming the quantified formula the engine makes R's contents the
+    closure i -> EXPR(i) (an equivalent, quantifier-free reading of the same clause)."""
+    try:
+        node = ast.parse(e.strip(), mode='eval').body
+    except SyntaxError:
+        return False
+    if not (isinstance(node, ast.Call) and isinstance(node.func, ast.Name) and node.func.id == 'forall'
+            and len(node.args) == 3 and isinstance(node.args[0], ast.Name)):
+        return False
+    var = node.args[0].id
+    rng, body = node.args[1], node.args[2]
+    if not (isinstance(rng, ast.Compare) and len(rng.ops) == 2 and isinstance(rng.ops[0], ast.LtE)
+            and isinstance(rng.ops[1], ast.Lt) and isinstance(rng.left, ast.Constant) and rng.left.value == 0
+            and isinstance(rng.comparators[0], ast.Name) and rng.comparators[0].id == var):
+        return False
+    if isinstance(body, ast.Call) and isinstance(body.func, ast.Name) and body.func.id == 'same' and len(body.args) == 2:
+        lhs, rhs = body.args
+    elif isinstance(body, ast.Compare) and len(body.ops) == 1 and isinstance(body.ops[0], ast.Eq):
+        lhs, rhs = body.left, body.comparators[0]
+    else:
+        return False
+    if not (isinstance(lhs, ast.Subscript) and isinstance(lhs.slice, ast.Name) and lhs.slice.id == var):
+        return False
+    if any(isinstance(n, ast.Name) and n.id == var for n in ast.walk(lhs.value)):
+        return False
+    E.spec_mode += 1
+    saved_env = E.st.env
+    try:
+        E.st.env = dict(env)
+        try:
+            target = E.eval(lhs.value)
+            upper = E.eval(rng.comparators[1])
+        except (Unsupported, RaiseSig, KeyError):
+            return False
+        if not isinstance(target, Arr) or target.ident not in E.st.fresh:
+            return False
+        clo = E.st.heap.get(target.ident)
+        if getattr(clo, 'base', None) is None or not (target.stride == 1 and isinstance(target.off, int) and target.off == 0):
+            return False
+        if getattr(clo, 'defined', False):
+            return False
+        up = term_int(upper)
+        tn = target.n if not isinstance(target.n, int) else z3.IntVal(target.n)
+        if E.decide(up == tn) is not True:
+            return False
+        k0 = z3.Int(fresh_name('def'))
+        E.st.env[var] = Z(k0, INT)
+        E.binders += 1
+        try:
+            val = E.eval(rhs)
+        except (Unsupported, RaiseSig):
+            return False
+        finally:
+            E.binders -= 1
+        if isinstance(val, z3.ExprRef):
+            val = Z(val, BOOL)
+        val = _norm_elem(val)
+        ty = target.ty
+        if ty == XR:
+            val = xops.to_x(val)
+        elif isinstance(val, X):
+            return False
+        elif ty == REAL and val.ty != REAL:
+            val = Z(to_real(val), REAL)
+        elif ty == INT and val.ty == BOOL:
+            val = Z(to_int(val), INT)
+        elif val.ty != ty:
+            return False
+        t = val.t
+
+        def newclo(i, t=t, k0=k0, ty=ty):
+            it = i if isinstance(i, z3.ExprRef) else z3.IntVal(i)
+            r = z3.substitute(t, (k0, it))
+            return X(r) if ty == XR else Z(r, ty)
+        newclo.defined = True
+        E.st.heap[target.ident] = newclo
+        E.stats['definitional'] = E.stats.get('definitional', 0) + 1
+        return True
+    finally:
+        E.st.env = saved_env
+        E.spec_mode -= 1
